@@ -133,7 +133,7 @@ def check(rec, kind, idx, rng, tier):
             rr = np.where(kept.any(axis=1))[0]; cc = np.where(kept.any(axis=0))[0]
             et, eb, el, er = int(rr[0]), int(rr[-1]), int(cc[0]), int(cc[-1])
             attrs = {'res': (geom['cx'], geom['cy']), 'nested': {'a': [1, 2]}, 'units': 'km'}
-            src = gen.mk(data, attrs=attrs, name='src', extra=bool(rng.random() < 0.3), **geom)
+            src = gen.mk(gen.rand_layout(data, rng), attrs=attrs, name='src', extra=bool(rng.random() < 0.3), **geom)
             nm = str(rng.choice(['trim', 'custom']))
             kw = {} if nm == 'trim' else {'name': nm}
             if excl is None:
@@ -189,8 +189,8 @@ def check(rec, kind, idx, rng, tier):
             if vals.dtype.kind == 'f' and rng.random() < 0.3:
                 vals = gen.sprinkle(vals, rng, 0.2, where='random')
             attrs = {'res': (geom['cx'], geom['cy']), 'nested': {'a': [1, 2]}}
-            vsrc = gen.mk(vals, attrs=attrs, name='values', extra=bool(rng.random() < 0.3), **geom)
-            zsrc = gen.mk(zones, attrs={'z': 1}, name='zones', **geom)
+            vsrc = gen.mk(gen.rand_layout(vals, rng), attrs=attrs, name='values', extra=bool(rng.random() < 0.3), **geom)
+            zsrc = gen.mk(gen.rand_layout(zones, rng), attrs={'z': 1}, name='zones', **geom)
             zid = tuple(ids) if rng.random() < 0.5 else list(ids)
             if rng.random() < 0.3:
                 zid = type(zid)(float(x) for x in ids)
